@@ -158,9 +158,57 @@ def d1_contiguity(ctx, RA, step, appenders):
                         return any(from_appender(dv) for dv, _ in defs_of(f.node, x.id))
                     return False
                 good = from_appender(other)
+        if not good:
+            good = _loop_row_symbolic(ctx, f, r, row, appenders)
         ctx.decide(good, 'R-FLOW', 'D1', f, r, 'loop-row',
                    'asraggedarray: each further row is [running values length, running values length + count returned by the values appender]',
                    detail='index row of the creation loop is not built from the running values length')
+
+
+def _loop_row_symbolic(ctx, f, rcall, row, appenders):
+    """Straight-line symbolic evaluation (polynomial normal forms, darrlint/poly.py) of the loop body up to the index
+    append: the row is [L, L + n] with L the value a variable has at the start of the iteration and n the count returned
+    by the values appender in this iteration — however the running length is updated in between."""
+    from .. import poly as P
+    loop = None
+    for p_, fld in enclosing(f.node, rcall):
+        if isinstance(p_, (ast.For, ast.While)) and fld == 'body':
+            loop = p_
+            break
+    if loop is None or row is None:
+        return False
+    env = {}
+    counts = set()
+    for st in loop.body:
+        if any(x is rcall for x in ast.walk(st)):
+            break
+        try:
+            if isinstance(st, ast.Expr):
+                continue
+            P.exec_block([st], env, lambda *a: None, on_if=lambda s_, e_: False)
+        except (P.Unsupported, P.NotPoly, KeyError):
+            return False
+        # remember the placeholder of a values-appender call
+        if isinstance(st, (ast.Assign, ast.AugAssign)) and isinstance(st.value, ast.Call) and \
+                any(t2 in appenders for k, t2 in ctx.R.resolve_call(st.value, f) if k == 'repo') and \
+                isinstance(st.value.func, ast.Attribute) and subarray_role(ctx, st.value.func.value, f) == 'VALUESDIR':
+            tg = st.targets[0] if isinstance(st, ast.Assign) else st.target
+            if isinstance(tg, ast.Name) and isinstance(st, ast.Assign):
+                counts.add(tuple(sorted(env[tg.id].items())))
+    r0 = row
+    if isinstance(r0, ast.Name):
+        return False
+    if not (isinstance(r0, ast.List) and len(r0.elts) == 1 and isinstance(r0.elts[0], (ast.List, ast.Tuple)) and
+            len(r0.elts[0].elts) == 2):
+        return False
+    try:
+        s_, e_ = (P.of_expr(x, env) for x in r0.elts[0].elts)
+    except (P.NotPoly, KeyError):
+        return False
+    start_is_entry_value = len(s_) == 1 and list(s_.values()) == [1] and len(list(s_)[0]) == 1 and \
+        not list(s_)[0][0].startswith('<')
+    diff = P.add(e_, s_, -1)
+    return start_is_entry_value and tuple(sorted(diff.items())) in counts
 
 
 def d2_keysets(ctx, RA):
